@@ -1,34 +1,40 @@
 package main
 
 import (
-	"encoding/json"
 	"fmt"
 	"os"
 
 	"github.com/pdfcpu/pdfcpu/pkg/api"
-	"verif/harness/lib/proj"
-	"verif/harness/lib/rawpdf"
+	"github.com/pdfcpu/pdfcpu/pkg/font"
+	"verif/harness/lib/fontgen"
+	"verif/harness/lib/fsx"
 )
 
 func main() {
 	api.DisableConfigDir()
-	d, _ := os.MkdirTemp("", "probe")
-	defer os.RemoveAll(d)
-	ps := []rawpdf.PageSpec{{Marker: "A", Rotate: -1}, {Marker: "B", Rotate: 90, MediaBox: "[0 0 200 300]"}, {Marker: "C", Rotate: -1, Streams: 3}, {Marker: "D", Rotate: 270, CropBox: "[10 10 100 100]"}, {Marker: "E", Rotate: -1}}
-	doc := rawpdf.MarkerDoc(ps, rawpdf.MarkerOpts{Fanout: 2, InheritRotate: 180, InfoDict: "/Title (T)"})
-	p := d + "/m.pdf"
-	os.WriteFile(p, doc.Bytes(), 0644)
-	if err := api.ValidateFile(p, nil); err != nil {
-		fmt.Println("validate:", err)
+	sb := fsx.New()
+	defer sb.Close()
+	sb.Mkdir("fonts")
+	r := fontgen.Roboto()
+	sb.Put("src/a.ttf", r, 0644)
+	sb.Put("src/b.ttf", fontgen.Renamed(r, "Roboto-RegulaB"), 0644)
+	sb.Put("src/c.ttc", fontgen.Collection(fontgen.Renamed(r, "Roboto-RegulaC"), fontgen.Renamed(r, "Roboto-RegulaD")), 0644)
+	font.UserFontDir = sb.P("fonts")
+	res := sb.Run(fsx.RunCfg{}, func() error { _, err := font.InstallTrueTypeFont(sb.P("fonts"), sb.P("src/a.ttf")); return err })
+	fmt.Println("single:", res.Err, len(res.Events))
+	for _, e := range res.Events {
+		fmt.Printf("  %d %s %s %s n=%d w=%d %s h=%d\n", e.I, e.Op, e.A, e.B, e.N, e.W, e.R, e.H)
 	}
-	pp, err := proj.Pages(p, nil)
-	fmt.Println(err)
-	b, _ := json.Marshal(pp)
-	fmt.Println(string(b))
-	if err := api.RotateFile(p, d+"/r.pdf", 90, []string{"1-2"}, nil); err != nil {
-		fmt.Println(err)
+	res = sb.Run(fsx.RunCfg{}, func() error { _, err := font.InstallTrueTypeCollection(sb.P("fonts"), sb.P("src/c.ttc")); return err })
+	fmt.Println("ttc:", res.Err, len(res.Events))
+	for _, e := range res.Events {
+		fmt.Printf("  %d %s %s %s n=%d w=%d %s h=%d\n", e.I, e.Op, e.A, e.B, e.N, e.W, e.R, e.H)
 	}
-	pp, err = proj.Pages(d+"/r.pdf", nil)
-	b, _ = json.Marshal(pp)
-	fmt.Println(err, string(b))
+	res = sb.Run(fsx.RunCfg{}, func() error { return api.InstallFonts([]string{sb.P("src/a.ttf"), sb.P("src/b.ttf")}) })
+	fmt.Println("batch:", res.Err, len(res.Events))
+	for _, e := range res.Events {
+		fmt.Printf("  %d %s %s %s n=%d w=%d %s h=%d\n", e.I, e.Op, e.A, e.B, e.N, e.W, e.R, e.H)
+	}
+	fmt.Println(fsx.Diff(res.Before, res.After))
+	_ = os.Stdout
 }
